@@ -588,6 +588,15 @@ func (m *roundsMonitor) After(c *Chain, w *World, br *BlockResult, outs []TxOutc
 	if c07HasEvent(br, "cyclelist_updated") > 0 {
 		m.govListUpdates++
 		m.replaceSeq = cur.NextSeq
+		// the replacement schedules the first entry of the new list; the rotation that follows in the same EndBlock may
+		// leave it only if it has no open window
+		if len(cur.CycleKeys) > 1 && cur.CurQid != cur.CycleKeys[0] {
+			for _, r := range cur.Rounds[cur.CycleKeys[0]] {
+				if r.Exp > h {
+					return pbt.Violf("C07/cycle/rotated-while-window-open/after-replacement", "block %d: governance replaced the cycle list; its first entry %.12s has round %d open until height %d (amount %s) but the scheduled query after the block is %.12s", h, cur.CycleKeys[0], r.ID, r.Exp, r.Amount, cur.CurQid)
+				}
+			}
+		}
 	} else if prev.CurQid != "" && cur.CurQid != prev.CurQid && strings.Join(prev.CycleKeys, ",") == strings.Join(cur.CycleKeys, ",") {
 		m.rotations++
 		for _, r := range cur.Rounds[prev.CurQid] {
@@ -671,11 +680,35 @@ func roundsProfile() *Profile {
 	// every history starts by registering the custom query types (windows 0-4, verifzero always 0) so that the
 	// catalog's custom queries can be tipped and reported from the start
 	p.Prefix = func(pick func(label string, n int) int) []Block {
-		return []Block{{Gap: GapSpec{Kind: 2}, Ops: []Op{
+		blocks := []Block{{Gap: GapSpec{Kind: 2}, Ops: []Op{
 			{K: OpRegisterSpec, A: pick("regActor", 8), R: [3]int{0, pick("winMed", 5), 8}},
 			{K: OpRegisterSpec, A: pick("regActor", 8), R: [3]int{1, pick("winMode", 5), 8}},
 			{K: OpRegisterSpec, A: pick("regActor", 8), R: [3]int{4, 0, 8}},
 		}}}
+		if pick("govThenTip", 4) == 0 {
+			// one case in four: governance replaces the cycle list by one that starts with a spot-price query, and that
+			// query is tipped in (or just before) the block in which the proposal executes: the newly scheduled query
+			// then has an open round that was opened by a tip, not by the rotation
+			first := 3 + pick("firstOfNewList", 2) // catalog: spot-ltc / spot-xyz
+			// (the list is kept in key order, so which entry comes first is not known here: one or both spot queries are tipped)
+			tips := []Op{{K: OpTip, A: 100 + pick("tipper", 5), R: [3]int{first, 0, 0}, Amt: Amount{Kind: AmtAbs, N: 1_000_000}}}
+			if pick("tipBoth", 2) == 0 {
+				tips = append(tips, Op{K: OpTip, A: 100 + pick("tipper2", 5), R: [3]int{7 - first, 0, 0}, Amt: Amount{Kind: AmtAbs, N: 2_000_000}})
+			}
+			b2 := Block{Gap: GapSpec{Kind: 4}}
+			b1 := Block{Gap: GapSpec{Kind: 2}}
+			if pick("tipBlock", 2) == 0 {
+				b2.Ops = tips
+			} else {
+				b1.Gap = GapSpec{Kind: 4, Delta: -2000} // 58 s: one block before the voting period ends
+				b1.Ops = tips
+				b2.Gap = GapSpec{Kind: 3}
+			}
+			blocks = append(blocks,
+				Block{Gap: GapSpec{Kind: 2}, Ops: []Op{{K: OpGov, A: 100 + pick("govActor", 5), V: 2, R: [3]int{0, pick("listLen", 4), first}}}},
+				b1, b2)
+		}
+		return blocks
 	}
 	p.Shape = func(t *rapid.T, op *Op) {
 		switch op.K {
